@@ -223,6 +223,10 @@ int32 psDiffMsecs(psTime_t then, psTime_t now, void *userPtr)
         /* borrow 1 second worth of nsec */
         now.psTimeInternal.tv_nsec += 1000000000L;
         }
+        if (now.psTimeInternal.tv_sec - then.psTimeInternal.tv_sec >= 2147483)
+        {
+            return 2147483647; /* saturate: do not wrap after 24.8 days */
+        }
         return (int32) ((now.psTimeInternal.tv_sec -
                 then.psTimeInternal.tv_sec) *
                 1000) +
